@@ -318,16 +318,47 @@ func ruleC15_4(c *Ctx) {
 			}
 		}
 		n++
-		label := "end of function"
+		labels := []string{"end of function"}
 		if gs := guardsOf(r); len(gs) > 0 {
-			label = "under " + gs[0].String()
+			labels = []string{"under " + gs[0].String()}
+			// the exit is taken when a lookup helper returned nil (`sConn := redirectConn(addr, s, f); if sConn == nil { return }`):
+			// one exit per way the helper returns nil, named by the condition inside the helper, so that the construct is the
+			// same whether the lookups are written in OnMoved or behind a helper
+			if x, op, y, ok := cmpGuard(gs[0]); ok && op == token.EQL && isNilConst(y) {
+				if call, isCall := strip(x).(*ssa.Call); isCall {
+					if h := call.Call.StaticCallee(); h != nil && p.isHelper(h) && h.Signature.Results().Len() == 1 {
+						var ls []string
+						withBinding(h, call.Call.Args, func() {
+							for _, rc := range returnCases(h, 0) {
+								switch {
+								case isNilConst(rc.val):
+									if len(rc.facts) > 0 {
+										ls = append(ls, "under "+rc.facts[len(rc.facts)-1].String())
+									} else {
+										ls = append(ls, "under "+gs[0].String())
+									}
+								default:
+									if _, isK := rc.val.(*ssa.Const); !isK {
+										ls = append(ls, "under ("+expr(rc.val)+" == nil)")
+									}
+								}
+							}
+						})
+						if len(ls) > 0 {
+							labels = ls
+						}
+					}
+				}
+			}
 		}
-		name := "OnMoved: exit " + label
-		if !handled {
-			name = "OnMoved: exit " + label + " drops the request"
+		for _, label := range labels {
+			name := "OnMoved: exit " + label
+			if !handled {
+				name = "OnMoved: exit " + label + " drops the request"
+			}
+			c.check(handled, name, c.at(r), "the fragment was re-sent or its request completed with an error",
+				"OnMoved returns here after only logging: the redirected fragment is neither re-sent nor failed, so the request is never answered (redirect to a node the proxy does not know, or that cannot be dialled)", withGuards(guardsOf(r)))
 		}
-		c.check(handled, name, c.at(r), "the fragment was re-sent or its request completed with an error",
-			"OnMoved returns here after only logging: the redirected fragment is neither re-sent nor failed, so the request is never answered (redirect to a node the proxy does not know, or that cannot be dialled)", withGuards(guardsOf(r)))
 	})
 }
 
@@ -530,6 +561,41 @@ func ruleC16_3(c *Ctx) {
 			call, ok := g.Cond.(*ssa.Call)
 			return ok && !g.Truth && staticCalleeName(&call.Call) == "(time.Time).Before"
 		})
+		if !(okD && okT) && st.Parent() == mt {
+			// the two tests may be spelled as one compound exit (`if !frag.Done && now.Before(t) { break }` … `if frag.Done
+			// { continue }`): then no single guard says "deadline passed", but every feasible path to the store does
+			if l := innermostLoopOuter(loopsOf(mt), st.Block()); l != nil {
+				paths, complete := pathFacts(l.Header, st.Block(), nil, 512)
+				okP := complete && len(paths) > 0
+				for _, facts := range paths {
+					notDone, passed := false, false
+					for k, v := range facts {
+						if cond, ok := condOf[k]; ok {
+							if base, is := fieldLoad(cond, doneF); is && !v {
+								all := true
+								for _, r := range flowRoots(base, nil) {
+									if call, ok := r.(*ssa.Call); !ok || call.Call.StaticCallee() != get {
+										all = false
+									}
+								}
+								if all {
+									notDone = true
+								}
+							}
+							if call, ok := cond.(*ssa.Call); ok && !v && staticCalleeName(&call.Call) == "(time.Time).Before" {
+								passed = true
+							}
+						}
+					}
+					if !notDone || !passed {
+						okP = false
+					}
+				}
+				if okP {
+					okD, okT = true, true
+				}
+			}
+		}
 		c.check(okD && okT, "msgTimeout: "+fv.Name()+" set only for an expired fragment that is not Done", c.at(in), "on !frag.Done and deadline passed",
 			"the timeout error is recorded for a fragment that already completed or whose deadline has not passed: a request that was answered gets a second (timeout) reply", withGuards(gs))
 	})
@@ -593,4 +659,15 @@ func ruleC16_4(c *Ctx) {
 		pushTail := p.Method(pkgCore, "FragQueue", "PushTail")
 		c.check(len(p.callsIn(enqIn, pushTail)) == 1 && len(p.callsIn(enqIn, push)) == 1, "enqueueInFrag: queue and deadline together", p.pos(enqIn.Pos()), "PushTail + pushToTimeoutQueue", "enqueueInFrag no longer does both the in-flight push and the deadline registration")
 	}
+}
+
+// innermostLoopOuter: the outermost loop that contains b (the per-deadline loop of msgTimeout, not the marking loop inside it).
+func innermostLoopOuter(loops []*Loop, b *ssa.BasicBlock) *Loop {
+	var out *Loop
+	for _, l := range loops {
+		if l.Blocks[b] && (out == nil || len(l.Blocks) > len(out.Blocks)) {
+			out = l
+		}
+	}
+	return out
 }
